@@ -288,6 +288,38 @@ Proof.
   rewrite H0. ring.
 Qed.
 
+(* ---------- existence and uniqueness of the interpolating polynomial ---------- *)
+Theorem interpolation_exists pts (y : F -> F) : NoDup pts ->
+  exists cs, length cs <= length pts /\ forall a, In a pts -> peval cs a = y a.
+Proof.
+  intros Hnd. exists (Lpoly pts y pts). split; [apply (length_Lpoly pts Hnd y pts (incl_refl _))|].
+  intros a Ha. rewrite peval_Lpoly, (sum_at pts y a pts Ha Hnd (incl_refl _)).
+  destruct (in_dec eq_dec a pts); [reflexivity|contradiction].
+Qed.
+Theorem interpolation_unique pts cs cs' : NoDup pts -> length cs <= length pts -> length cs' <= length pts ->
+  (forall a, In a pts -> peval cs a = peval cs' a) -> forall x, peval cs x = peval cs' x.
+Proof.
+  intros Hnd H1 H2 Heq x.
+  assert (HD : forall z, peval (padd cs (pscale (fopp 1) cs')) z = 0).
+  { apply (root_bound (length pts) _ pts); [rewrite length_padd, length_pscale; lia|exact Hnd|lia|].
+    intros r Hr. rewrite peval_padd, peval_pscale, (Heq r Hr). ring. }
+  specialize (HD x). rewrite peval_padd, peval_pscale in HD.
+  transitivity (peval cs x + fopp 1 * peval cs' x + peval cs' x); [ring|rewrite HD; ring].
+Qed.
+(* Shamir's perfect secrecy in its algebraic form: any t-1 shares at distinct non-zero points are
+   consistent with EVERY secret - for each candidate s' there is a polynomial with at most t coefficients,
+   constant term s', through all of them (and it is unique as a function) *)
+Theorem any_secret_consistent pts (y : F -> F) (s' : F) : NoDup pts -> ~ In 0 pts ->
+  exists cs, length cs <= S (length pts) /\ peval cs 0 = s' /\ forall a, In a pts -> peval cs a = y a.
+Proof.
+  intros Hnd H0.
+  destruct (interpolation_exists (0 :: pts) (fun a => if eq_dec a 0 then s' else y a)) as [cs [Hl Hv]].
+  { constructor; assumption. }
+  exists cs. split; [exact Hl|]. split.
+  - rewrite (Hv 0 (or_introl eq_refl)). destruct (eq_dec 0 0); [reflexivity|congruence].
+  - intros a Ha. rewrite (Hv a (or_intror Ha)). destruct (eq_dec a 0) as [->|]; [contradiction|reflexivity].
+Qed.
+
 (* Horner from the top (the code) is evaluation of the reversed coefficient list *)
 Lemma horner_app cs c x : horner (cs ++ [c]) x = horner cs x * x + c.
 Proof. unfold PolyDefs.horner. rewrite fold_left_app. reflexivity. Qed.
